@@ -205,6 +205,34 @@ func v5RunScenario(scn v5Scn) (res v5Res) {
 			return nil
 		})))
 		routes = RouteList{first, rt}
+	case "nonterm-read-undecided":
+		// a route without matchers whose NON-TERMINAL handler reads two bytes from the connection: the first is
+		// there, for the second it blocks in the connection's Read until the client sends it (on UDP this goes
+		// through packetConn.Read's select, which receives whatever tick the cleared deadline left in the timer);
+		// then a route that never decides: the deadline is armed again and must still end matching on time
+		first := &Route{}
+		first.middleware = append(first.middleware, wrapHandler(NextHandlerFunc(func(cx *Connection, nx Handler) error {
+			buf := make([]byte, 2)
+			if _, err := io.ReadFull(cx, buf); err != nil {
+				mu.Lock()
+				res.hread = "fail"
+				mu.Unlock()
+				return err
+			}
+			mu.Lock()
+			res.hread = "ok"
+			res.hreadAt = time.Since(startT)
+			mu.Unlock()
+			return nx.Handle(cx)
+		})))
+		rt := &Route{matcherSets: MatcherSets{MatcherSet{v5Need{k: 1 << 20}}}}
+		rt.middleware = append(rt.middleware, wrapHandler(NextHandlerFunc(func(cx *Connection, _ Handler) error {
+			mu.Lock()
+			res.class = "ran"
+			mu.Unlock()
+			return nil
+		})))
+		routes = RouteList{first, rt}
 	case "match-read":
 		rt := &Route{matcherSets: MatcherSets{MatcherSet{v5Need{k: 1}}}}
 		rt.middleware = append(rt.middleware, wrapHandler(NextHandlerFunc(func(cx *Connection, _ Handler) error {
@@ -355,6 +383,17 @@ func v5RunScenario(scn v5Scn) (res v5Res) {
 		}
 		st := startT
 		switch scn.kind {
+		case "nonterm-read-undecided":
+			if !udp {
+				record(1)
+				_ = send([]byte{'a'})
+			}
+			if !sleepOrStop(time.Until(st.Add(scn.delay))) {
+				return
+			}
+			record(1)
+			_ = send([]byte{'b'})
+			return
 		case "match-read", "empty-fb-read":
 			if !udp {
 				record(1)
@@ -445,7 +484,10 @@ func v5Oracle(r v5Res) map[string]string {
 		return f
 	}
 	switch r.scn.kind {
-	case "undecided", "nonterm-undecided":
+	case "undecided", "nonterm-undecided", "nonterm-read-undecided":
+		if r.scn.kind == "nonterm-read-undecided" && r.hread != "ok" {
+			f["C05:timing:"+tr+":nonterminal-handler-read-failed"] = "the handler of the matched route could not read the byte sent at +" + r.scn.delay.String()
+		}
 		switch {
 		case r.scn.client == "flood":
 			if r.class != "full" {
@@ -517,7 +559,7 @@ func (r v5Res) coq() string {
 	for _, s := range r.sends {
 		as = append(as, fmt.Sprintf("(%d, %d)", s.at, s.n))
 	}
-	kind := map[string]string{"undecided": "KUndecided", "match-read": "KMatchRead", "empty-fb-read": "KEmptyFbRead", "nonterm-undecided": "KNonTermUndecided"}[r.scn.kind]
+	kind := map[string]string{"undecided": "KUndecided", "match-read": "KMatchRead", "empty-fb-read": "KEmptyFbRead", "nonterm-undecided": "KNonTermUndecided", "nonterm-read-undecided": "KNonTermReadUndecided"}[r.scn.kind]
 	tr := map[string]string{"pipe": "TPipe", "tcp": "TTcp", "udp": "TUdp", "udp-real": "TUdp"}[r.scn.transport]
 	cls := map[string]string{"timeout": "OTimeout", "full": "OFull", "neterr": "ONetErr", "ran": "ORan", "fallback": "OFallback", "none": "ONone"}[r.class]
 	hr := map[string]string{"none": "RdNone", "ok": "RdOk", "fail": "RdFail"}[r.hread]
@@ -552,6 +594,9 @@ func TestVerifC05Timing(t *testing.T) {
 			}
 			add(v5Scn{transport: tr, timeout: to, phase: .5, client: "late", kind: "match-read"})
 			if to >= 300*time.Millisecond {
+				// ... and the non-terminal handler blocks in a read until +60 ms before passing the connection on
+				add(v5Scn{transport: tr, timeout: to, phase: .5, client: "silent", kind: "nonterm-read-undecided", delay: 60 * time.Millisecond})
+				add(v5Scn{transport: tr, timeout: to, phase: .95, client: "silent", kind: "nonterm-read-undecided", delay: 20 * time.Millisecond})
 				// after a non-terminal match (deadline cleared, handler takes 0/20/60 ms) a later route is undecided
 				for _, dly := range []time.Duration{0, 20 * time.Millisecond, 60 * time.Millisecond} {
 					add(v5Scn{transport: tr, timeout: to, phase: .5, client: "silent", kind: "nonterm-undecided", delay: dly})
